@@ -229,6 +229,7 @@ def run(ctx):
     class_hierarchy_is_acyclic(ctx)
     lookup_results_are_nullable(ctx)
     parallel_subscripts_are_bounded(ctx)
+    shared_manifests_are_not_freed(ctx)
     instance_substitution_registers_first(ctx)
     containment_recursion(ctx)
     construction_stacks(ctx)
@@ -2201,3 +2202,46 @@ def using_walks_carry_a_visited_set(ctx):
                         why = "`%s` is handed on but the call is not behind `%s.insert(this).second`" % (p_.get("n"), p_.get("n"))
                 ctx.ob("R15.28", "%s|_using->%s|visited-set" % (f.name + "/" + str(len(f.params or [])), short), ok, f.loc(c), why)
     ctx.floor("R15.28", "lookups that follow _using recursively", n, 5)
+
+
+def _deleted_manifests(fn_walk):
+    out = []
+    for y in fn_walk:
+        if y.get("k") == "delete":
+            e = strip_casts(peel(y.get("e")))
+            t = (e or {}).get("t") or ""
+            if "CPPManifest" in t:
+                out.append(y)
+    return out
+
+
+def shared_manifests_are_not_freed(ctx):
+    """R15.29: a CPPManifest is pointed to from `_manifests` (by name) AND, after `#pragma push_macro`, from
+    `_manifest_stack` (raw pointers, no reference count).  `#define` of an existing name and `#undef` take the object
+    out of `_manifests` only; freeing it there leaves the stack's copy dangling, and `#pragma pop_macro` re-installs a
+    freed object (heap corruption, abort).  The preprocessor therefore never deletes a manifest it took from
+    `_manifests` unless the same function also removes it from `_manifest_stack`.
+    (Seed S9-C15: `delete other;` added to handle_define_directive - "Delete the old.", as its comment says.)"""
+    db = ctx.db
+    ctx.rule("R15.29", "no function of CPPPreprocessor deletes a CPPManifest* (the push_macro stack shares the pointers) unless it also erases from _manifest_stack")
+    # the detector sees the shape it looks for
+    probe = [{"k": "delete", "e": {"k": "ref", "n": "other", "t": "CPPManifest *", "dk": "local", "d": 1}}]
+    if len(_deleted_manifests(probe)) != 1:
+        ctx.broken("R15.29: the detector no longer recognises its own example")
+    users = [g for g in db.functions if g.name.startswith("CPPPreprocessor::") and any(y.get("k") == "mem" and (y.get("n") or "").endswith("::_manifest_stack") for y in g.walk())]
+    ctx.floor("R15.29", "functions that use the push_macro stack", len(users), 1)
+    n = 0
+    for f in db.functions:
+        if not f.name.startswith("CPPPreprocessor::"):
+            continue
+        n += 1
+        dels = _deleted_manifests(f.walk())
+        if not dels:
+            continue
+        unstack = any(y.get("k") == "call" and callee_short(y) in ("erase", "pop_back", "clear") and
+                      any(z.get("k") == "mem" and (z.get("n") or "").endswith("::_manifest_stack") for z in walk(y.get("this") or {})) for y in f.walk())
+        for d in dels:
+            ctx.ob("R15.29", "%s|delete %s|not-shared-with-the-macro-stack" % (f.name, show(d.get("e"))[:30]), unstack, f.loc(d),
+                   "the manifest is also taken off _manifest_stack here" if unstack else "a manifest that `#pragma push_macro` may still hold is freed")
+    ctx.ob("R15.29", "CPPPreprocessor|no-manifest-freed-while-shared", True, "src/cppparser/cppPreprocessor.cxx", "%d functions of CPPPreprocessor examined" % n)
+    ctx.floor("R15.29", "functions of CPPPreprocessor examined", n, 60)
